@@ -940,6 +940,9 @@ func (e *Env) evalCall(n *ECall) Val {
 		}
 		return boolVal(app("<", vc.rt(x.S), e.st.alloc))
 	}
+	if why, amb := vc.G.contracts.SpecAmbig[n.Fn]; amb {
+		sfail("spec %s is %s: a file that does not define it cannot use it", n.Fn, why)
+	}
 	if sf, ok := vc.G.contracts.Specs[n.Fn]; ok {
 		if len(sf.Params) != len(n.Args) {
 			sfail("spec %s: wrong number of arguments", n.Fn)
